@@ -357,6 +357,58 @@ func finish(v *verdict, p *plan, pre preState, s *sessLog, first string) *verdic
 			short(e.ReplID), e.Offset, o.CacheRight, short(o.CacheID), o.Pos, o.PosAbsent)
 		break
 	}
+	// (1b) a granted continuation keeps the position it was requested from: from the +CONTINUE
+	// until the first command of the reconnect reaches the target, what a fresh instance would read
+	// as the stored position (fields of the source's ids, every database, largest offset) is never
+	// absent / -1 / smaller than the position stored when the PSYNC was sent
+	for i, e := range s.Psync {
+		if !e.Continue {
+			continue
+		}
+		o, ok := s.Obs[e.Stamp]
+		if !ok || o.PosAbsent {
+			continue
+		}
+		if i == 0 && !pre.PosAbsent {
+			o.Pos = pre.Pos
+		}
+		hi := int64(1) << 62
+		if i+1 < len(s.Psync) {
+			hi = s.Psync[i+1].Stamp
+		}
+		bad := false
+		for j := range s.Apps {
+			if s.Stamps[j] <= e.Stamp {
+				continue
+			}
+			if s.Stamps[j] >= hi || isBusiness(&s.Apps[j]) {
+				break
+			}
+			es, ok := s.CpTrace[j]
+			if !ok {
+				continue
+			}
+			best, have := int64(-1), false
+			for _, c := range es {
+				if (strings.EqualFold(c.ID, e.MasterReplID) || strings.EqualFold(c.ID, e.MasterReplID2) || c.ID == pre.PosID) && c.Off >= 0 && c.Off > best {
+					best, have = c.Off, true
+				}
+			}
+			if !have || best < o.Pos {
+				now := "absent/-1"
+				if have {
+					now = fmt.Sprint(best)
+				}
+				v.add("position-regressed-after-granted-continuation"+ctx, "the source granted PSYNC %s %d while the target stored position %d; before any command of the reconnect was applied the stored position became %s (%s)",
+					short(e.ReplID), e.Offset, o.Pos, now, s.Apps[j].String())
+				bad = true
+				break
+			}
+		}
+		if bad {
+			break
+		}
+	}
 	// (2) a FULLRESYNC answer is followed by the snapshot, never by stream commands
 	for i, e := range s.Psync {
 		if e.Continue {
@@ -379,6 +431,8 @@ func finish(v *verdict, p *plan, pre preState, s *sessLog, first string) *verdic
 	}
 	// outcome class
 	switch {
+	case first == "" && s.Ended == "idle-acked":
+		v.Outcome = "continued-idle"
 	case first == "":
 		v.Outcome = "no-delivery(" + s.Ended + ")"
 	case first == "snapshot:"+p.S2.Tag:
